@@ -43,12 +43,31 @@ func runC01(t *simrt.Tape, o Opts) Outcome {
 		if t.Choose(3, "clock-skew") == 1 {
 			w.ClockSkews = []time.Duration{0, time.Second, -time.Second, 90 * time.Second, -90 * time.Second, 2 * time.Hour, -2 * time.Hour, 25 * time.Hour, -25 * time.Hour, 100 * 24 * time.Hour, -100 * 24 * time.Hour}
 		}
+		// a metastore that suffixes key ids with its region (one history in four), possibly with records
+		// and keys that were written before the suffix was switched on
+		legacyWriter := false
+		if t.Choose(4, "region-suffix") == 1 {
+			w.Suffix = []string{"us-west-2", "r1"}[t.Choose(2, "region-suffix.which")]
+			legacyWriter = t.Choose(2, "legacy-writer") == 1
+		}
 		h := &hist{w: w, t: t, parts: world.Partitions[:1+t.Choose(4, "nparts")], maxProc: 3}
 		h.gen = world.GenOpts{SmallCaps: t.Choose(2, "smallcaps") == 1, NoSimple: t.Choose(3, "nosimple") == 1, AllowTinyLFU: allowTinyLFU}
 		h.weights = [opKinds]int{opEncrypt: 8, opDecrypt: 8, opOpen: 2, opCloseSess: 2, opAdvance: 3, opRevoke: 1, opForeignRotate: 1, opRestart: 1, opCrash: 1, opNewProc: 1}
 		faulty := t.Choose(2, "faulty") == 1
 		if o.Thorough() {
 			h.payloadClasses = []int{2, 0, 1, 3, 4, 5}
+		}
+		if legacyWriter {
+			// the deployment before the switch: one process without suffix writes a record per partition
+			w.NextProcUnsuffixed = true
+			old := h.newProc()
+			w.NextProcUnsuffixed = false
+			for _, part := range h.parts {
+				if se, err := w.Open(old, part); err == nil {
+					w.Encrypt(se, w.Payload(2))
+				}
+			}
+			w.CloseProc(old)
 		}
 		h.newProc()
 		if faulty {
